@@ -239,7 +239,9 @@ func c15LayoutResolution(r *Run) {
 // a page that fails in the middle of a text (output already produced for it), then is repaired: the long-lived engine
 // renders the repaired page like a new engine does - nothing of the failed render is left anywhere
 func c15FailedThenRepaired(r *Run) {
-	good := func(i int) string { return fmt.Sprintf("<p>Hello {{ name }} v%d!</p><p title=\"t {{ name }}\">x</p>", i) }
+	good := func(i int) string {
+		return fmt.Sprintf("<p>Hello {{ name }} v%d!</p><p title=\"t {{ name }}\">x</p>", i)
+	}
 	bad := `<p>DRAFT for {{ name }} total {{ name | noSuchFilter }}</p><p title="T {{ name }} {{ name | nosuch2 }}">y</p>`
 	for _, entry := range []string{"VueRender", "Load.Render"} {
 		m := fstest.MapFS{}
@@ -276,6 +278,7 @@ func init() { streams["C15"] = runC15 }
 func runC15(r *Run) {
 	c15LayoutResolution(r)
 	c15FailedThenRepaired(r)
+	c15SameFileOtherData(r)
 	r.Imports = []string{"Model.Cache"}
 	r.Rule("histories of {edit page/component/layout with a new version and an mtime that advances, stays equal, goes backwards or is zero; delete; recreate; make invalid (bad front-matter); " +
 		"render via Vue.Render, Vue.RenderFragment, Load().Render, RenderFile, with a named layout, without any, and with the default layouts/base.vuego being created, edited and deleted between renders} on one long-lived engine over an in-memory FS; " +
@@ -485,3 +488,43 @@ func descC15(ops []c15Op) []string {
 }
 
 var _ = strings.Join
+
+// a page (and its layout) left alone, rendered again and again with data that flips what its elements show: elements
+// that carry static attributes next to v-show / v-text / v-html / :class / :style render from the file, not from what
+// an earlier render made of them
+func c15SameFileOtherData(r *Run) {
+	page := "---\nlayout: frame\n---\n" + `<p style="color:red" v-show="visible" v-text="note">old</p><div class="k" :class="{on: visible}" style="margin:0" :style="{opacity: level}" v-html="html"></div>` +
+		`<ul><li v-for="it in items" style="x:y" v-show="it.on" v-text="it.name"></li></ul><input value="v" :disabled="!visible" v-show="visible">`
+	frame := `<aside style="float:right" v-show="sidebar" v-html="sidebar"></aside><main v-html="content"></main>`
+	datas := []map[string]any{
+		{"visible": false, "level": 0, "items": []any{map[string]any{"on": false, "name": "a"}}},
+		{"visible": true, "note": "n", "html": "<b>h</b>", "level": 0.5, "sidebar": "<i>s</i>", "items": []any{map[string]any{"on": true, "name": "b"}, map[string]any{"on": false, "name": "c"}}},
+		{"visible": false, "note": "m", "sidebar": "", "items": []any{map[string]any{"on": true, "name": "d"}}},
+		{"visible": true, "level": 1, "items": []any{}},
+	}
+	for _, entry := range []string{"VueRender", "Load.Render"} {
+		m := fstest.MapFS{"page.vuego": &fstest.MapFile{Data: []byte(page), ModTime: time.Unix(400000, 0)}, "layouts/frame.vuego": &fstest.MapFile{Data: []byte(frame), ModTime: time.Unix(400000, 0)}}
+		vue, tpl := vuego.NewVue(m), vuego.NewFS(m)
+		render := func(v *vuego.Vue, t vuego.Template, d map[string]any) string {
+			var buf bytes.Buffer
+			var err error
+			if entry == "VueRender" {
+				err = v.Render(&buf, "page.vuego", d)
+			} else {
+				err = t.New().Fill(d).Load("page.vuego").Render(context.Background(), &buf)
+			}
+			return strings.Join(strings.Fields(buf.String()), "") + "|failed=" + fmt.Sprint(err != nil)
+		}
+		for round := 0; round < 2; round++ {
+			for i, d := range datas {
+				got, want := render(vue, tpl, d), render(vuego.NewVue(m), vuego.NewFS(m), d)
+				r.Eval(fmt.Sprintf("same-file-other-data:%s:%d:%d", entry, round, i), round+i > 0, nil)
+				r.Count("stream:same-file-other-data(oracle only)")
+				if got != want {
+					r.Fail("a file left alone renders differently on a long-lived engine after it was rendered with other data", map[string]string{"oracle": "same-file-other-data", "entry": entry},
+						map[string]any{"round": round, "data": fmt.Sprint(d), "page": page, "layout": frame, "long_lived": got, "new_engine": want})
+				}
+			}
+		}
+	}
+}
